@@ -34,6 +34,12 @@ NUMERIC_TRUST = [
     "math.Round / float32 conversion semantics",
 ]
 
+REST_TRUST = [
+    "net/http: ServeMux routing and path cleaning, one goroutine per connection; encoding/json decodes request bodies into the handlers' struct types (the decoded value is what the model receives)",
+    "the unmodified cmd binary built from /repo's working tree, started on a scratch data folder and a free port",
+    "embedText/Ollama is unreachable offline: a text request is a 5xx with no state change",
+]
+
 PROPS = {
     "C01": dict(
         modules=["Syzgy.Props.C01"], ties=["Storage"],
@@ -161,5 +167,24 @@ PROPS = {
                  "decodeVector allocates a fresh slice (make) for every returned vector"],
         statement="every returned value has provenance copy ⇒ stable; inputs are not retained",
         partial="'inputs_not_retained' is checked on the implementation only (caller slices mutated after the call); the model records provenance of results",
+    ),
+    "C17": dict(
+        modules=["Syzgy.Props.C17"], ties=["Rest"],
+        runs={"quick": [["rest-C17", "--scenarios", "12", "--ops", "120"]], "thorough": [["rest-C17", "--scenarios", "120", "--ops", "400"]]},
+        trusted=REST_TRUST,
+        statement="REST refinement, frame, restart = identity, status classes",
+        partial="the REST model is the specification; proved: frame (one collection per request), unknown collection = 404, create = 201, restart is the identity given C02. The refinement 'real server = model' is the request-by-request correspondence (status + canonical payload incl. listings after kill -9/restart), not a theorem; vector-search result lists are compared by status only (their content is C03/C04)",
+    ),
+    "C18": dict(
+        modules=["Syzgy.Props.C18"], ties=["Rest"],
+        runs={"quick": [["rest-C18", "--scenarios", "1500"]], "thorough": [["rest-C18", "--scenarios", "30000"]]},
+        trusted=REST_TRUST + ["a panicking handler makes net/http drop the connection (the transport outcome the harness observes)"],
+        statement="handler never panics; status >= 300 ⇒ state unchanged; constructor validates",
+    ),
+    "C19": dict(
+        modules=["Syzgy.Props.C19"], ties=["Rest"],
+        runs={"quick": [["rest-C19", "--scenarios", "400"]], "thorough": [["rest-C19", "--scenarios", "6000"]]},
+        trusted=REST_TRUST + ["filepath.Join/Clean are lexical (modelled on path components); http.ServeMux redirects non-canonical paths (a decoded '/' changes the segment split, '..' segments never reach a handler)"],
+        statement="accepted names stay inside the folder (lexical Join/Clean)",
     ),
 }
